@@ -426,7 +426,7 @@ func gbSplitFact(e ast.Expr, pos bool, out *[]gbFact) {
 func gbFactsOf(gates []engine.Gate) []gbFact {
 	var fs []gbFact
 	for _, gt := range gates {
-		gbSplitFact(gt.Cond, gt.OnTrue, &fs)
+		gbSplitFact(gt.Full(), gt.OnTrue, &fs)
 	}
 	key := func(e ast.Expr) string { return types.ExprString(ast.Unparen(e)) }
 	for changed, rounds := true, 0; changed && rounds < 4; rounds++ {
